@@ -37,7 +37,7 @@ from pathlib import Path
 CID = "C03b"
 WORK = V.BUILD / "work"
 EMPH = [0, 1, 2, 7, 8, 31, 32, 33, 63, 64, 65]
-OCT_MAX_DIGITS = 21      # longer octal literals: see known-finding probe
+OCT_MAX_DIGITS = 10**9   # (octal literals longer than 21 digits used to assert in parseBitVector; repaired, regressions in corpus/C03b)
 
 # ----------------------------------------------------------------------------
 # Independent oracle: the mathematical definition of every frontend operator.
